@@ -43,6 +43,7 @@ ASSUMPTIONS = [
 SHARDS = {'quick': 4, 'thorough': 14}
 SHARD_TIMEOUT = {'quick': 600, 'thorough': 2400}
 EXHAUSTIVE = {'quick': False, 'thorough': False}
+_DIRS = ('', 'pct%31dir', 'q?mode=rwc', 'h#frag', 'sp ace', "quo'te", 'semi;colon&amp', 'caf\u00e9')
 _Q = {
     'mon:ids': 30000, 'mon:sizes': 60000, 'mon:examples': 300000, 'mon:preorder': 6000, 'mon:order': 20000,
     'mon:shuffle': 10000, 'mon:getclients': 6000, 'mon:keyerror': 100000, 'mon:parent': 15000, 'mon:differential': 14000,
@@ -54,6 +55,7 @@ _Q = {
     'empty-view': 30, 'start>stop': 15, 'boundary-hit': 60, 'enlarging-slice': 40, 'slice-of-subset': 30,
     'subset-of-slice': 30, 'nul-family-ids': 60, 'prefix-family-ids': 40, 'rowchanging-pre': 10,
     'out-of-view-probe-nul-variant': 600,
+    **{'dbdir:' + (d or 'plain'): 30 for d in _DIRS},
     'hit:interleaved-scans': 5000, 'mon:interleave': 40000, 'hit:invalid-subset-request': 800,
 }
 _BULK = {'hit:bulk-absolute-path': 6, 'hit:bulk-relative-path': 6}
@@ -605,7 +607,20 @@ def run_case(ctx, fedjax, mods, rng, tmpdir, case_no):
   rng.shuffle(ins)
   base_wit = {'ids': ids, 'rows': [rows[c] for c in ids], 'features': list(table[ids[0]]), 'insert_order': ins}
 
-  path = os.path.join(tmpdir, f'c{case_no}.sqlite')
+  # the database lives in a directory whose NAME is taken in turn from _DIRS (characters that mean something to URI / SQL /
+  # shell parsers); for the percent spelling a sibling directory holding another dataset sits where a decoded path would point
+  dname = _DIRS[case_no % len(_DIRS)]
+  ddir = os.path.join(tmpdir, dname) if dname else tmpdir
+  os.makedirs(ddir, exist_ok=True)
+  path = os.path.join(ddir, f'c{case_no}.sqlite')
+  ctx.count('dbdir:' + (dname or 'plain'))
+  base_wit['db_directory_name'] = dname
+  decoy = None
+  if '%31' in dname:
+    decoy = os.path.join(tmpdir, dname.replace('%31', '1'), f'c{case_no}.sqlite')
+    os.makedirs(os.path.dirname(decoy), exist_ok=True)
+    with sq.SQLiteFederatedDataBuilder(decoy) as b:
+      b.add_many([(b'decoy-client', {'idx': np.arange(3, dtype=np.int64)})])
   conns = []
   stacks, dead = {}, {}
   model0 = Model(table, ids)
@@ -789,10 +804,12 @@ def run_case(ctx, fedjax, mods, rng, tmpdir, case_no):
       except Exception:  # pylint: disable=broad-except
         pass
     for suffix in ('', '-journal', '-wal', '-shm'):
-      try:
-        os.remove(path + suffix)
-      except OSError:
-        pass
+      for p_ in (path, decoy):
+        try:
+          if p_:
+            os.remove(p_ + suffix)
+        except OSError:
+          pass
 
 
 def run_bulk(ctx, mods, rng, tmpdir, case_no):
@@ -956,3 +973,5 @@ if __name__ == '__main__':
   _xproc.child_main(_xproc_child)
 
 TECHNIQUE += '; interleaved scans; bulk builds of 1e3-4e3 clients; replay of histories in a fresh interpreter under another PYTHONHASHSEED'
+TECHNIQUE += '; database directories named with URI / SQL / shell metacharacters (with a decoy sibling at the percent-decoded path)'
+RULE += " Wave-8 addition: the SQLite file of every history lives in a directory whose name is taken in turn from {plain, 'pct%31dir' (decoy dataset at 'pct1dir'), 'q?mode=rwc', 'h#frag', 'sp ace', quote, 'semi;colon&amp', non-ASCII}."
